@@ -177,6 +177,24 @@ def render(job: Dict[str, Any]) -> Dict[str, Any]:
                     planted_info[i_s] = {'kind': kind, 'name': o.fullName(), 'docstring': o.docstring, 'page_words': words,
                                          'description': o.description}
             r['planted_info'] = planted_info
+            # fault-free run: the text of every docstring must reach the page of its object, rendered or as plain text
+            lost = []
+            if plan_ is None:
+                pages: Dict[str, Optional[str]] = {}
+                for o in system.allobjects.values():
+                    m = simsystem.marker_of(o)
+                    if m is None or isinstance(o, simsystem.model.Module) or not o.isVisible or o.docstring is None:
+                        continue
+                    url = o.page_object.url
+                    if url not in pages:
+                        try:
+                            with open(os.path.join(out, url), encoding='utf-8') as f:
+                                pages[url] = ' '.join(_text(f.read()))
+                        except OSError:
+                            pages[url] = None
+                    if pages[url] is not None and f'M{m}M' not in pages[url]:
+                        lost.append((o.fullName(), o.kind.name if o.kind else '?', o.docstring[:300]))
+            r['lost_text'] = lost
         return r
     finally:
         os.chdir('/')
@@ -315,6 +333,10 @@ def run_case(case: Dict[str, Any], plans: Optional[List[Dict[str, Any]]], nplans
     stats['extents'] = len(twin['records'])
     stats['events'] = sum(r['events'] for r in twin['records'])
     h.update(repr(sorted(twin['tree'].items())).encode())
+    for name, kind, doc in twin.get('lost_text', [])[:3]:
+        sig = f'{PROPERTY}/text-lost,fault-free,kind={kind}'
+        violations.setdefault(sig, {'signature': sig, 'detail': f'fault-free run: the docstring of {name} ({doc!r}) does not appear on its page (neither rendered nor as plain text)',
+                                    'payload': {'case': case, 'plans': []}})
     if case.get('planted'):
         stats['planted'] = len(twin.get('planted_info', {}))
         for suffix, detail in judge_planted(case, twin):
